@@ -369,6 +369,21 @@ let codec_line (l : string) : string =
              l ^ " ; " ^ d) in
       cur_env := wenv; res
   | "enc", [t; v] -> fst (enc_model (ty_of_sx t) (val_of_sx v))
+  | ("encu" | "encit"), [t; v] ->
+      (* every sequence / map in the unknown-length form *)
+      let t = ty_of_sx t and v = val_of_sx v in
+      (match enc_u (nat_of_int (64 + 2 * val_size v)) !cur_env t v [] with
+       | Ok (b, _) -> "ok " ^ hex b
+       | Err e -> "err " ^ err_class e
+       | Panic p -> "panic " ^ pkind_str p
+       | Fuel -> "fuel")
+  | "urt", [t; v; Atom sfx] ->
+      let t = ty_of_sx t and v = val_of_sx v in
+      (match enc_u (nat_of_int (64 + 2 * val_size v)) !cur_env t v [] with
+       | Ok (b, _) -> "ok " ^ hex b ^ " ; " ^ dec_model ~extra:(4 * val_size v + 64) t (b @ unhex sfx)
+       | Err e -> "err " ^ err_class e ^ " ; -"
+       | Panic p -> "panic " ^ pkind_str p ^ " ; -"
+       | Fuel -> "fuel ; -")
   | "dec", [t; Atom h] -> dec_model (ty_of_sx t) (unhex h)
   | "rt", [t; v; Atom sfx] ->
       let t = ty_of_sx t in
@@ -595,10 +610,43 @@ let hist_line (l : string) : string =
 
 let hist_cases path = with_lines path (fun l -> print_endline (hist_line l))
 
+
+(* ---------- C10: graphs ---------- *)
+let show_graph (g : (n * n list) list) : string =
+  if g = [] then "-" else
+  String.concat " " (List.map (fun (l, es) -> string_of_n l ^ ":" ^ String.concat "," (List.map string_of_n es)) g)
+
+let graph_decode_str (fuel : nat) (bs : n list) : string =
+  match decode_graph fuel bs with
+  | Ok ((root, rest), g) -> Printf.sprintf "ok %s | %s | %d" (string_of_n root) (show_graph g) (List.length rest)
+  | Err e -> "err " ^ err_class e
+  | Panic p -> "panic " ^ pkind_str p
+  | Fuel -> "fuel"
+
+let graph_line (l : string) : string =
+  match split_ws l with
+  | "g" :: root :: rest ->
+      let specs = List.rev (List.tl (List.rev rest)) and sfx = List.nth rest (List.length rest - 1) in
+      let g = List.map (fun s ->
+          let (lab, es) = split_op s in
+          (n_of_string lab, List.map n_of_string (List.filter (fun x -> x <> "") (String.split_on_char ',' es)))) specs in
+      let nn = List.length g in
+      let deg = List.fold_left (fun a (_, es) -> max a (List.length es)) 0 g in
+      (match encode_graph (nat_of_int (nn + 2)) g (n_of_string root) with
+       | Ok (b, _) -> "ok " ^ hex b ^ " ; " ^ graph_decode_str (nat_of_int (nn + deg + 4)) (b @ unhex sfx)
+       | Err e -> "err " ^ err_class e ^ " ; -"
+       | Panic p -> "panic " ^ pkind_str p ^ " ; -"
+       | Fuel -> "fuel ; -")
+  | ["gdec"; h] -> let bs = unhex h in graph_decode_str (nat_of_int (List.length bs + 4)) bs
+  | _ -> failwith "bad graph line"
+
+let graph_cases path = with_lines path (fun l -> print_endline (graph_line l))
+
 let () =
   match Array.to_list Sys.argv with
   | _ :: "varint-cases" :: path :: _ -> varint_cases path
   | _ :: "codec" :: path :: _ -> codec_cases path
   | _ :: "ioops" :: path :: _ -> ioops_cases path
   | _ :: "hist" :: path :: _ -> hist_cases path
+  | _ :: "graph" :: path :: _ -> graph_cases path
   | _ -> prerr_endline "usage: driver <command> <file>"; exit 2
